@@ -21,7 +21,9 @@ def run(tier):
         fams.append(("unm",) + gen_meta.unm_case(o, c) + (None,))
     for _ in range(1500 if thorough else 250):
         fams.append(("index",) + gen_meta.index_case(rng) + (None,))
-    for pos, na, hk in itertools.product(["call", "tail", "stat", "forin", "gcall", "pcall", "nested"], [0, 1, 3], ["function", "nonfunction", "nil"]):
+    for pos, na, hk in itertools.product(["call", "tail", "stat", "forin", "gcall", "pcall", "nested"], [0, 1, 3], ["function", "nonfunction", "nil", "builtin:rawequal", "builtin:type", "builtin:select", "builtin:rawget"]):
+        if pos == "forin" and hk in ("builtin:type", "builtin:rawequal"):
+            continue          # a host iterator that never returns nil loops forever
         fams.append(("call",) + gen_meta.call_case(pos, na, hk) + (None,))
     for p, root in gen_meta.misc_cases():
         fams.append(("misc", p, root, None))
